@@ -337,6 +337,13 @@ func (f *Fetcher) enqueue(peer string, block *types.Block) {
 		return
 	}
 
+	// The hash only covers the header: discard a block whose transactions do not match it, so that it is neither
+	// propagated nor allowed to shadow the real block with this hash
+	if types.DeriveSha(block.Transactions()) != block.TxHash() {
+		logging.Debug("Discarded propagated block, transactions do not match the header: ", "height", block.Number(), "pid", peer)
+		return
+	}
+
 	// Schedule the block for future importing
 	if _, ok := f.queued[hash]; !ok {
 		op := &inject{
